@@ -5,21 +5,23 @@ from harness import gterm as G, geom
 from harness.fonts import build_font, gen_component_font, jsonable
 
 PID = "C13"
-LEVEL_TEXT = ("Proof + correspondence: Coq theorems that the one-level inlining pen used by SkipExportGlyphsFilter leaves no "
-              "reference to a skipped glyph (skip_absent, for all glyph sets and skip lists) and, from C01/C15, that placing through "
-              "composed matrices equals nested placing (the reason inlined content renders the same). The full statement (same "
-              "multiset of resolved contours, same advances and anchors, relative order kept, skipped names gone) is an executable "
-              "Coq predicate skip_ok evaluated with vm_compute on the real filter's before/after glyph sets and on "
-              "OTFPreProcessor with/without skipping; the Gallina skip_glyph model is compared with the filter output glyph by "
-              "glyph. Compiled OTF/TTF with and without skipping are compared directly (order, cmap, hmtx, contour multisets). Designspace "
+LEVEL_TEXT = ("Proof + correspondence: Coq theorems, for all glyph sets (non-singular component matrices, closed contours), all skip "
+              "lists and any nesting of skipped glyphs: the one-level inlining pen leaves no reference to a skipped glyph "
+              "(skip_absent); a filtered glyph resolves to a PERMUTATION of the contours it resolved to (skip_glyph_render); and "
+              "for the whole filter (skip_filter: skipped glyphs removed, every other glyph replaced) skipped names are gone, the "
+              "others keep their relative order, advance and anchors, and every remaining glyph -- resolved in the FILTERED glyph "
+              "set -- renders a permutation of what it rendered in the source (skip_filter_preserves_rendering). The Gallina "
+              "skip_filter is compared exactly (glyph set equality, order included) with SkipExportGlyphsFilter's output, and the "
+              "executable statement skip_ok is evaluated on the real filter's and on OTFPreProcessor's before/after glyph sets. "
+              "Compiled OTF/TTF with and without skipping are compared directly (order, cmap, hmtx, contour multisets). Designspace "
               "builds (list given by the designspace lib; by argument / UFO libs for compileInterpolatableTTFs) are observed: the "
               "variable font built with skipping is instantiated at every source location -- including sparse layer masters that "
               "only the skipped component has -- and each remaining glyph must render like in the build with nothing skipped.")
-LEVEL_NOTE = ("Trusted: Coq kernel, hand model of the filter pen (correspondence-tested), harness. The Permutation-of-contours "
-              "statement is checked per case in Coq, not proved for all inputs. TrueType binaries are compared on order/cmap/"
-              "hmtx only (composite vs inlined rounding differs inherently, DESIGN C13); generated kerning/marks on remaining "
-              "glyphs are covered through C05/C06's interpreter runs with skipExportGlyphs.")
-TECHNIQUE = "Coq theorem skip_absent + Coq-evaluated skip_ok predicate and skip_glyph model on real filter runs; direct binary comparison"
+LEVEL_NOTE = ("Trusted: Coq kernel, hand model of the filter pen (correspondence-tested, exact), harness. TrueType binaries are "
+              "compared on order/cmap/hmtx only (composite vs inlined rounding differs inherently, DESIGN C13); the interpolatable "
+              "variant of the filter (sparse masters, interpolated layers) is observed, not modelled; generated kerning/marks on "
+              "remaining glyphs are covered through C05/C06's interpreter runs with skipExportGlyphs.")
+TECHNIQUE = "Coq theorems (no reference to skipped glyphs left; filtered glyph set renders a permutation of the source contours, for all inputs) + exact correspondence of the Gallina filter with SkipExportGlyphsFilter; designspace builds observed"
 IMPORTS = "From U2F Require Import Base.Prelude Geometry.Model Geometry.Cff Geometry.Filters."
 RULE = ("random component DAGs (depth <= 3-4, mirrored/nested references) x random skip subsets biased to glyphs used as bases "
         "(thorough: every subset of fonts with <= 6 glyphs) given by argument or by public.skipExportGlyphs, both UFO libraries; "
@@ -30,7 +32,7 @@ RULE = ("random component DAGs (depth <= 3-4, mirrored/nested references) x rand
 ASSUMPTIONS = ["IEEE doubles exact on dyadic inputs"]
 
 FN = ("fun c : (list str * glyphset * glyphset) => let '(skip, gs, gs') := c in "
-      "bits (model_skip_eqb skip gs gs') (skip_ok skip gs gs')")
+      "bits (model_skip_eqb skip gs gs' && model_filter_eqb skip gs gs') (skip_ok skip gs gs')")
 FN_PRE = ("fun c : (list str * glyphset * glyphset) => let '(skip, gs, gs') := c in "
           "if skip_ok skip gs gs' then 3 else 1")
 
